@@ -511,7 +511,9 @@ EXTENSIONS = {
             "changes nothing."),
     "C11": ("The attribute objects of a set are built by the constructors, decoded from the wire, reconstructed from an OLD speaker's "
             "form (RFC 6793) or edited through the Path API (AS prepended) before packing."),
-    "C12": ("A rival source V (no graceful restart, session stays up) announces some of the prefixes with a longer AS_PATH: in the Loc-RIB "
+    "C12": ("R may announce with ADD-PATH (several path identifiers per prefix, each with its own re-announcement fate); a third observer "
+            "lists LLGR for IPv4 only; the long-lived time may differ per family; the OPEN of R's second session may announce another "
+            "restart time and other long-lived tuples / times, by which the second restart cycle has to run. A rival source V (no graceful restart, session stays up) announces some of the prefixes with a longer AS_PATH: in the Loc-RIB "
             "and at both observers R's route is the best one while fresh or merely stale, V's once R's is LLGR-stale or gone."),
     "C14": ("In more than half of the wire-level cases the routes are LEARNED from a peer without the capability (OLD-speaker form built "
             "by the harness, optionally with an RFC 7606 attribute-discard fault in every UPDATE; control: a peer with the capability): "
